@@ -559,6 +559,15 @@ C17_TEXTS = [
     ("single-element", "pick float = {?sizes}[1] mm\nother float = {?pick}", False, [("pick", 20), ("other", 20)], [("pick", "mm"), ("other", "mm")], ["pick", "other"]),
     ("text-slice", "last str[:] = {?names}[1:]\ng\n  {?last}", False, [], [], ["last", "g.last"]),
 ]
+REMOTE = os.path.join(os.path.dirname(os.path.abspath(__file__)), "fixtures", "remote.dip")
+C17_TEXTS += [
+    ("remote-source-imports-and-injections", f"$source rem = {REMOTE}\nbag {{rem?*}}\nbowl\n  {{rem?fruits}}\n  {{rem?vegies.potato}}\nplate {{rem?vegies.*}}\nv float = {{rem?speed}} m/s\nw float = {{rem?speed}}\nmix float = {{?a}}", False,
+     [("bag.fruits", 3), ("bag.vegies.potato", 2.5), ("bag.vegies.carrot", 7), ("bag.speed", 30.0), ("bowl.fruits", 3), ("bowl.potato", 2.5), ("plate.potato", 2.5), ("plate.carrot", 7), ("v", 30.0), ("w", 30.0), ("mix", wa)],
+     [("bag.vegies.potato", "kg"), ("bag.speed", "km/s"), ("bowl.potato", "kg"), ("v", "m/s"), ("w", "km/s"), ("mix", "m")],
+     ["bag.fruits", "bag.vegies.potato", "bag.vegies.carrot", "bag.speed", "bowl.fruits", "bowl.potato", "plate.potato", "plate.carrot", "v", "w", "mix"]),
+    ("remote-request-selecting-no-node", f"$source rem = {REMOTE}\nq float = {{rem?nope}}", True, [], [], None),
+    ("remote-request-selecting-several-nodes", f"$source rem = {REMOTE}\nq float = {{rem?vegies.*}}", True, [], [], None),
+]
 ARRAYS17 = {"sliced-array-injection-then-import": [("part", [20.0, 30.0]), ("box.part", [20.0, 30.0])],
             "sliced-array-injection-then-modification": [("part", [7.0, 8.0, 9.0]), ("copy", [7.0, 8.0, 9.0])],
             "text-slice": [("last", ["b", "c"]), ("g.last", ["b", "c"])]}
@@ -857,3 +866,31 @@ def _(c):
     c.ensures("'declare -A BOX_GRID' in result.split('\\n') and 'export BOX_GRID' in result.split('\\n') and 'export N=4' in result.split('\\n')", "declared-and-exported-under-the-same-symbol")
     c.ensures("all(['.' not in l.split('=')[0] for l in result.split('\\n')])", "no-line-assigns-to-an-unrenamed-dotted-name")
     c.no_raise()
+
+
+# ---- C09: parsing a text that defines units leaves the process-wide unit tables as they were, however parsing ends ------------------------
+from contracts.units_environment import gstate, US, UP, UT
+
+C09_TEXTS = [
+    ("units-defined-and-used", '$unit len = 2 cm\n$unit mass = 3 g\nx float = 3 [len]\ny float = ("2 [len] + 1 cm") cm\nz bool = ("{?x} > 1 cm")\nw float = {?x} mm', False),
+    ("unit-defined-by-another-custom-unit", '$unit len = 2 cm\n$unit dlen = 2 [len]\nx float = 1 [dlen]\nx = 4 cm', False),
+    ("parsing-fails-after-the-units-were-used", '$unit len = 2 cm\nx float = 3 [len]\nx = 1 s', True),
+    ("parsing-fails-in-an-expression-with-custom-units", '$unit len = 2 cm\ny float = ("2 [len] + 1 s") cm', True),
+    ("condition-with-custom-units-fails", '$unit len = 2 cm\nx float = {?w0} [len]\n  !condition ("{?} > 1 [len]")', ("le", w0, 1)),
+    ("unknown-unit", 'x float = 3 [nolen]', True),
+    ("no-custom-units", 'x float = 3 cm\ny float = ("{?x} * 2") mm', False),
+]
+
+
+@contract(DIPC + ".parse", ["C09"], name="DIP.parse[unit-tables-restored]")
+def _(c):
+    c.bound = f"{len(C09_TEXTS)} texts defining and using custom units, some failing after the units were registered"
+    c.chunk = 2
+    for name, text, refused in C09_TEXTS:
+        def pre(b, text=text, refused=refused):
+            d, env, S = prestate2(b, PRE16, text)
+            return dict(args=[d], env=dict(S=S, refused=refused, us=b.glob(US), up=b.glob(UP), ut=b.glob(UT)))
+        c.scenario(name, pre)
+    c.raises("ev(refused, S)", label="fails-exactly-when-stated")
+    c.ensures("gstate(us, up, ut) == old(gstate(us, up, ut))", "process-wide-tables-as-before")
+    c.on_raise("gstate(us, up, ut) == old(gstate(us, up, ut))", "process-wide-tables-as-before-when-parsing-fails")
